@@ -9,7 +9,7 @@
    defects for which a repair is proposed (proposed_fixes/C17-*.diff); `cur` is the code
    that exists. *)
 From Coq Require Import ZArith List Bool.
-From Coq Require Import Floats.PrimFloat.
+From Coq Require Import Floats.PrimFloat Floats.FloatOps Floats.SpecFloat.
 From PAFCommon Require Import PyFloat Lists.
 Import ListNotations.
 
@@ -24,14 +24,18 @@ Record ops (T : Type) := mkops {
   oinvbeta : T -> T -> T * T;         (* autofit.messages.beta.inv_beta_suffstats *)
   c10 : T; olog10 : T -> T;
   ondtri : T -> T;                    (* transform.ndtri (scipy.special.ndtri inside (0,1)) *)
-  onormpdf : T -> T                   (* scipy.stats._continuous_distns._norm_pdf *)
+  onormpdf : T -> T;                  (* scipy.stats._continuous_distns._norm_pdf *)
+  c4 : T; clogbase : T;               (* NormalMessage.log_base_measure = -0.5 * np.log(2 * np.pi) *)
+  ogammaln : T -> T; obetaln : T -> T -> T;   (* scipy.special.gammaln / betaln *)
+  onan_to_num : T -> T                (* np.nan_to_num(., nan=-inf): nan -> -inf, +-inf -> +-max float *)
 }.
 Arguments oadd {T}. Arguments osub {T}. Arguments omul {T}. Arguments odiv {T}.
 Arguments oopp {T}. Arguments osqrt {T}. Arguments osq {T}. Arguments c0 {T}.
 Arguments c1 {T}. Arguments c2 {T}. Arguments chalf {T}. Arguments olog {T}.
 Arguments oexp {T}. Arguments olog1p {T}. Arguments omax {T}. Arguments oofnat {T}.
 Arguments oinvpsilog {T}. Arguments oinvbeta {T}. Arguments c10 {T}. Arguments olog10 {T}.
-Arguments ondtri {T}. Arguments onormpdf {T}.
+Arguments ondtri {T}. Arguments onormpdf {T}. Arguments c4 {T}. Arguments clogbase {T}.
+Arguments ogammaln {T}. Arguments obetaln {T}. Arguments onan_to_num {T}.
 
 Inductive family := FNormal | FNatural | FGamma | FBeta | FFixed.
 
@@ -49,14 +53,16 @@ Arguments TPhi {T}. Arguments TLog {T}. Arguments TLog10 {T}. Arguments TExp {T}
 Record variant := mkvariant {
   keep_limits : bool;     (* TransformedMessage.with_base passes lower_limit/upper_limit on *)
   tzeros_via_base : bool; (* TransformedMessage.zeros_like = with_base(base.zeros_like()) *)
-  beta_project_ok : bool  (* inv_beta_suffstats solves its Newton step (with the installed numpy 2
+  beta_project_ok : bool; (* inv_beta_suffstats solves its Newton step (with the installed numpy 2
                              np.linalg.solve rejects the (n,2) right-hand side: every BetaMessage.project raises) *)
+  fixed_truediv_noop : bool  (* FixedMessage.__truediv__ = _no_op (the class only defines the py2 name __div__) *)
 }.
-Definition pinned : variant := mkvariant false false false.     (* the pinned tree *)
-Definition repaired : variant := mkvariant true true true.      (* all three proposed fixes applied *)
+Definition pinned : variant := mkvariant false false false false.     (* the pinned tree *)
+Definition applied3 : variant := mkvariant true true true false.      (* limits, zeros_like, beta fixes applied *)
+Definition repaired : variant := mkvariant true true true true.       (* all proposed fixes applied *)
 (* the code the correspondence check compares with; theorems never mention `cur`, so this is
    the only line to change when a proposed fix is applied to /repo *)
-Definition cur : variant := repaired.
+Definition cur : variant := applied3.
 
 (* id -1 stands for "a fresh id drawn from AbstractMessage.ids" *)
 Definition fresh_id : Z := (-1)%Z.
@@ -127,7 +133,8 @@ Section Generic.
   Definition b_smul (a : msg) (c : T) : msg :=
     if is_fixed a then a else
     mkmsg (fam a) (scalar a) (elems a) (oadd O (lognorm a) (olog O c)) (mid a) (lo a) (hi a).
-  Definition b_sdiv (a : msg) (c : T) : msg :=
+  Definition b_sdiv (V : variant) (a : msg) (c : T) : msg :=
+    if is_fixed a && fixed_truediv_noop V then a else
     mkmsg (fam a) (scalar a) (elems a) (osub O (lognorm a) (olog O c)) (mid a) (lo a) (hi a).
 
   (* zeros_like: NormalMessage goes through `.natural` (a NaturalNormal), the others are `** 0.` *)
@@ -209,7 +216,7 @@ Section Generic.
         end
     | EPow x k => option_map (lift1 V (fun a => b_pow a k)) (eval V env x)
     | ESMul x c => option_map (lift1 V (fun a => b_smul a c)) (eval V env x)
-    | ESDiv x c => option_map (lift1 V (fun a => b_sdiv a c)) (eval V env x)
+    | ESDiv x c => option_map (lift1 V (fun a => b_sdiv V a c)) (eval V env x)
     | ESum3 x y z =>
         match eval V env x, eval V env y, eval V env z with
         | Some (MB a), Some vy, Some vz => Some (MB (b_sum a [base_of vy; base_of vz]))
@@ -230,6 +237,42 @@ Section Generic.
         | None => None
         end
     | EFromNat x => option_map (lift1 V b_fromnat) (eval V env x)
+    end.
+
+  (* ---------- MessageInterface.logpdf of the base families (one array element, one point) ---------- *)
+  Definition log_partition (f : family) (p : list T) : T :=
+    match f with
+    | FNormal | FNatural =>
+        match to_nat f p with
+        | [e1; e2] => osub O (odiv O (odiv O (oopp O (osq O e1)) (c4 O)) e2)
+                             (odiv O (olog O (omul O (oopp O (c2 O)) e2)) (c2 O))
+        | _ => c0 O
+        end
+    | FGamma =>
+        match of_nat FGamma (to_nat FGamma p) with
+        | [a; b] => osub O (ogammaln O a) (omul O a (olog O b))
+        | _ => c0 O
+        end
+    | FBeta => match p with [a; b] => obetaln O a b | _ => c0 O end
+    | FFixed => c0 O
+    end.
+  Definition log_base (f : family) : T :=
+    match f with FNormal | FNatural => clogbase O | _ => c0 O end.
+  (* to_canonical_form at one point; x ** 2 is C pow when x is a Python scalar, x * x on arrays *)
+  Definition canon_pt (f : family) (x : T) (x_scalar : bool) : list T :=
+    match f with
+    | FNormal | FNatural => [x; if x_scalar then osq O x else omul O x x]
+    | FGamma => [olog O x; x]
+    | FBeta => [olog O x; olog1p O (oopp O x)]
+    | FFixed => [x]
+    end.
+  (* natural_logpdf: nan_to_num(log_base + (eta * t).sum(0) - log_partition) *)
+  Definition natural_logpdf (f : family) (p : list T) (x : T) (x_scalar : bool) : T :=
+    match to_nat f p, canon_pt f x x_scalar with
+    | [e1; e2], [t1; t2] =>
+        onan_to_num O (osub O (oadd O (log_base f) (oadd O (oadd O (c0 O) (omul O e1 t1)) (omul O e2 t2)))
+                            (log_partition f p))
+    | _, _ => c0 O
     end.
 
   (* ---------- change of variables: TransformedMessage._transform_det / factor ---------- *)
@@ -330,7 +373,22 @@ Fixpoint look2 (t : list (float * float * (float * float))) (x y : float) : floa
 Record tabs := mktabs {
   t_sq : tab1; t_log : tab1; t_exp : tab1; t_log1p : tab1; t_ipl : tab1;
   t_ib : list (float * float * (float * float));
-  t_log10 : tab1; t_ndtri : tab1; t_normpdf : tab1 }.
+  t_log10 : tab1; t_ndtri : tab1; t_normpdf : tab1;
+  t_gammaln : tab1; t_betaln : list (float * float * float) }.
+
+Fixpoint look3 (t : list (float * float * float)) (x y : float) : float :=
+  match t with
+  | [] => nan
+  | (k1, k2, v) :: r => if fbits_eqb k1 x && fbits_eqb k2 y then v else look3 r x y
+  end.
+
+Definition max_float : float := 0x1.fffffffffffffp+1023%float.
+Definition f_nan_to_num (x : float) : float :=
+  match Prim2SF x with
+  | S754_nan => neg_infinity
+  | S754_infinity s => if s then PrimFloat.opp max_float else max_float
+  | _ => x
+  end.
 
 Definition nat2f (n : nat) : float := Z2F (Z.of_nat n).
 
@@ -343,7 +401,8 @@ Definition fops (is_scalar : bool) (tb : tabs) : ops float :=
         (look1 (t_log tb)) (look1 (t_exp tb)) (look1 (t_log1p tb))
         (fun a b => if PrimFloat.ltb a b then b else a)
         nat2f (look1 (t_ipl tb)) (look2 (t_ib tb))
-        10%float (look1 (t_log10 tb)) (look1 (t_ndtri tb)) (look1 (t_normpdf tb)).
+        10%float (look1 (t_log10 tb)) (look1 (t_ndtri tb)) (look1 (t_normpdf tb))
+        4%float (-0x1.d67f1c864beb4p-1)%float (look1 (t_gammaln tb)) (look3 (t_betaln tb)) f_nan_to_num.
 
 (* ---------- observables and comparison ---------- *)
 Fixpoint list_eqb {A} (eqb : A -> A -> bool) (a b : list A) : bool :=
@@ -381,6 +440,10 @@ Definition proj_msg (tb : tabs) (f : family) (is_scalar : bool) (cols : list (li
   let r := map (fun c => proj_col (fops is_scalar tb) f (fst c) (snd c)) cols in
   (map fst r, map snd r).
 
+(* `assert np.isfinite(suff_stats).all()` of AbstractMessage.project *)
+Definition proj_finite (tb : tabs) (f : family) (is_scalar : bool) (cols : list (list float * list float)) : bool :=
+  forallb (fun c => forallb ffinite (suff_stats (fops is_scalar tb) f (fst c) (snd c))) cols.
+
 Inductive case :=
 (* an abstract program over an environment of messages, and the message the code returned
    (None = the code raised) *)
@@ -392,6 +455,12 @@ Inductive case :=
         (obs_elems : list (list float)) (obs_lognorm : list float) (obs_id : Z) (obs_l obs_h : float)
 (* cls.project raised *)
 | CProjExc (f : family)
+(* TransformedMessage.project raised: the base is projected on the RAW samples, which raises exactly when a
+   sufficient statistic of the raw samples is not finite (e.g. log of a sample outside the base support) *)
+| CTProjExc (tb : tabs) (f : family) (is_scalar : bool) (cols : list (list float * list float))
+(* m.logpdf(x) of a base message: rows of x (one value per array element) and the observed log-densities *)
+| CLogpdf (tb : tabs) (f : family) (is_scalar x_scalar : bool) (elems_ : list (list float))
+          (xs obs : list (list float))
 (* history on an array message: the queries (parameters, natural parameters, mean, variance) observed
    on the initial message and after every in-place `m[i] = value` *)
 | CHist (f : family) (elems0 : list (list float)) (steps : list (nat * list float))
@@ -429,13 +498,18 @@ Fixpoint hist_ok (O : ops float) (m : msg (T := float)) (steps : list (nat * lis
       end
   end.
 
-Definition no_tabs : tabs := mktabs [] [] [] [] [] [] [] [] [].
+Definition no_tabs : tabs := mktabs [] [] [] [] [] [] [] [] [] [] [].
 
 Definition check_case (c : case) : bool :=
   match c with
   | CHist f e0 steps obs =>
       hist_ok (fops false no_tabs) (mkmsg f false e0 0%float 0%Z neg_infinity infinity) steps obs
   | CProjExc f => family_eqb f FBeta && negb (beta_project_ok cur)
+  | CTProjExc tb f sc cols => negb (proj_finite tb f sc cols)
+  | CLogpdf tb f sc xsc es xs obs =>
+      let O := fops sc tb in
+      list_eqb flist_eqb (map (fun row => map2 (fun p x => natural_logpdf O f p x xsc) es row) xs) obs
+      && forallb (fun row => Nat.eqb (length row) (length es)) xs
   | CDet tb st x lp oy ol ofac =>
       let O := fops true tb in
       let yl := transform_det O st x in
@@ -444,11 +518,13 @@ Definition check_case (c : case) : bool :=
   | CAlg tb sc env e obs => opt_eqb mval_eqb (eval (fops sc tb) cur env e) obs
   | CProj tb f sc cols i l h oe oln oi ol oh =>
       let r := proj_msg tb f sc cols in
+      proj_finite tb f sc cols &&
       (negb (family_eqb f FBeta) || beta_project_ok cur) &&
       list_eqb flist_eqb (fst r) oe && flist_eqb (snd r) oln
       && Z.eqb i oi && fbits_eqb l ol && fbits_eqb h oh
   | CTProj tb f sc cols st ti ost oti otl oth oe oln oi ol oh =>
       let r := proj_msg tb f sc cols in
+      proj_finite tb f sc cols &&
       list_eqb flist_eqb (fst r) oe && flist_eqb (snd r) oln
       && list_eqb transform_eqb st ost && opt_eqb Z.eqb ti oti
       && fbits_eqb otl neg_infinity && fbits_eqb oth infinity
